@@ -8,7 +8,7 @@ Case lines sent to bin/modelrun_c13 (see coq/C13/driver.ml):
   <id> run <expired> A <dt> <shape> <vals> <ops...>
   <id> run <expired> P <dt> <shape> <filevals> <slope|-> <inter|-> <mmap> <gz> <ops...>
   (<expired> = 1 when this nibabel's get_data() raises ExpiredDeprecationError: a platform fact read at run time)
-ops: f8 f4 fi u8 u4 ui (get_fdata fill/unchanged, float64/float32/int16) as (np.asarray(dataobj))
+ops: f8 f4 fi u8 u4 ui f2 fc u2 uc (get_fdata fill/unchanged, float64/float32/int16/float16/complex64) as (np.asarray(dataobj))
      sl (dataobj[..., 1]) sf (dataobj[...]) un (uncache) ed (last[0,..,0] += 7) im (in_memory)
      gf gu (legacy get_data(caching=fill/unchanged)) hs:<s>:<i>|hs:- hh:<shape> hd:<dt> (img.header edits)
      os:.. oh:.. od:.. (edits of the header object the image / proxy was created from)
@@ -36,9 +36,9 @@ ALPHA = ['f8', 'f4', 'u8', 'u4', 'as', 'sl', 'sf', 'un', 'ed', 'im', 'hs:3:5', '
 # get_fdata while the image file cannot be opened (x: fill, y: unchanged), explicit full bounds, full-length
 # reversed slices (axis 0 / last axis / all axes / first and last)
 NEW = ['x8', 'x4', 'sb', 'r0', 'rL', 'rA']
-EXTRA = ['x8', 'x4', 'y8', 'y4', 'sb', 'r0', 'rL', 'rA', 'r0L', 'fi', 'ui', 'gf', 'gu', 'hd:i2', 'hd:f8', 'od:i2', 'od:f8', 'hs:-', 'os:-', 'rh', 'rs', 'oh:8.1.1', 'hh:8']
+EXTRA = ['x8', 'x4', 'y8', 'y4', 'sb', 'r0', 'rL', 'rA', 'r0L', 'f2', 'fc', 'u2', 'uc', 'fi', 'ui', 'gf', 'gu', 'hd:i2', 'hd:f8', 'od:i2', 'od:f8', 'hs:-', 'os:-', 'rh', 'rs', 'oh:8.1.1', 'hh:8']
 EPILOGUE = ['rh', 'rs', 'im']
-NPDT = {'i2': np.int16, 'f4': np.float32, 'f8': np.float64}
+NPDT = {'i2': np.int16, 'f4': np.float32, 'f8': np.float64, 'f2': np.float16, 'c8': np.complex64}
 
 
 # --------------------------------------------------------------------------- configurations
@@ -160,10 +160,14 @@ def is_mapped(r):
 
 def dtname(dt):
     dt = np.dtype(dt)
-    return {('i', 2): 'i2', ('f', 4): 'f4', ('f', 8): 'f8'}.get((dt.kind, dt.itemsize), dt.str)
+    return {('i', 2): 'i2', ('f', 4): 'f4', ('f', 8): 'f8', ('f', 2): 'f2', ('c', 8): 'c8'}.get((dt.kind, dt.itemsize), dt.str)
 
 
 def ival(x):
+    if isinstance(x, complex) or np.iscomplexobj(x):
+        if complex(x).imag != 0:
+            return repr(complex(x))
+        x = complex(x).real
     x = float(x)
     return str(int(x)) if x == int(x) else repr(x)
 
@@ -260,8 +264,8 @@ def impl_trace(c, ops, workdir):
         k = tok.split(':')[0]
         r = None
         try:
-            if k in ('f8', 'f4', 'fi', 'u8', 'u4', 'ui'):
-                dt = {'8': 'f8', '4': 'f4', 'i': 'i2'}[k[1]]
+            if k in ('f8', 'f4', 'fi', 'u8', 'u4', 'ui', 'f2', 'fc', 'u2', 'uc'):
+                dt = {'8': 'f8', '4': 'f4', 'i': 'i2', '2': 'f2', 'c': 'c8'}[k[1]]
                 r = img.get_fdata(caching='fill' if k[0] == 'f' else 'unchanged', dtype=NPDT[dt])
             elif k in ('x8', 'x4', 'y8', 'y4'):
                 dt = 'f8' if k[1] == '8' else 'f4'
@@ -338,8 +342,8 @@ def impl_trace(c, ops, workdir):
                                            bool(r.flags.writeable), is_mapped(r), vals_str(r)))
         # ---- property predicate on this access
         if pred is None:
-            if k in ('f8', 'f4', 'u8', 'u4', 'x8', 'x4', 'y8', 'y4'):
-                dt = 'f8' if k[1] == '8' else 'f4'
+            if k in ('f8', 'f4', 'u8', 'u4', 'x8', 'x4', 'y8', 'y4', 'f2', 'fc', 'u2', 'uc'):
+                dt = {'8': 'f8', '4': 'f4', '2': 'f2', 'c': 'c8'}[k[1]]
                 if dtname(r.dtype) != dt:
                     pred = f'step {step}: get_fdata returned dtype {r.dtype}, asked {dt}'
                 elif cached is not None and cached[1] == dt:
@@ -469,8 +473,11 @@ def run(chk: Check):
                        'identity is observed with `is` on references kept alive by the harness']
     chk.trusted.append('NumPy view / copy / memmap(mode="c") semantics: modelled (heap of buffers and array objects), '
                        'not verified; checked against NumPy on every sequence')
+    import time
+    t0 = time.time()
     chk.build()
     chk.run_probes()
+    t1 = time.time()
     if not chk.model_ok:
         return
     rng = chk.rng
@@ -520,6 +527,13 @@ def run(chk: Check):
         for seq in itertools.product(base8 + NEW, repeat=3):
             if any(t in NEW for t in seq):
                 plan.append((ci, list(seq) + EPILOGUE))
+    # "any float dtype": float16 and complex64 (np.inexact) next to float32 / float64
+    odd_dt = ['f2', 'fc', 'u2', 'uc']
+    for c in [A('f8', order='C'), A('i2', order='C'), P('f8', None, True), P('i2', (2, 1), True), P('f4', None, False)]:
+        ci = idx[cfg_name(c)]
+        for seq in itertools.product(['f8', 'f4', 'un', 'ed', 'im', 'as'] + odd_dt, repeat=3):
+            if any(t in odd_dt for t in seq):
+                plan.append((ci, list(seq) + EPILOGUE))
     for c in odd_cfgs + [c for c in arr_cfgs if c['order'] == 'F']:
         ci = idx[cfg_name(c)]
         for seq in itertools.product(ALPHA + NEW, repeat=2):
@@ -529,7 +543,7 @@ def run(chk: Check):
     plan = [(ci, ops) for ci, ops in plan if not (cfgs[ci].get('gz') and any(t[0] in 'xy' for t in ops))]
     n_exh = len(plan)
     allops = ALPHA + EXTRA
-    weights = [4] * 4 + [3, 3, 3, 3, 5, 2] + [1] * 4 + [2] * 9 + [1] * (len(EXTRA) - 9)
+    weights = [4] * 4 + [3, 3, 3, 3, 5, 2] + [1] * 4 + [2] * 13 + [1] * (len(EXTRA) - 13)
     for _ in range(chk.n(2500, 40000)):
         ci = rng.randrange(len(cfgs))
         depth = rng.randrange(5, 31)
@@ -558,9 +572,13 @@ def run(chk: Check):
     for ch, rs in zip(jobidx, res):
         for k, r in zip(ch, rs):
             impl[k] = r
+    t2 = time.time()
     lines = [f"{k} {model_prefix(cfgs[ci])} {' '.join(model_ops(cfgs[ci], ops))}" for k, (ci, ops) in enumerate(plan)]
     mod = run_model_parallel(PROP, lines, jobs=6)
 
+    t3 = time.time()
+    chk.extra['timing_s'] = {'build_incl_lock_wait': round(t1 - t0, 1), 'implementation': round(t2 - t1, 1),
+                             'model': round(t3 - t2, 1)}
     # ---- compare
     spec_bad = 0
     pv, cv, sv = [], [], []      # property violations / correspondence-only / spec-vs-concrete
@@ -632,7 +650,8 @@ def coq_op(tok):
               'u4': 'GetFdata Unchanged F4', 'ui': 'GetFdata Unchanged I2', 'as': 'AsArray', 'sl': 'Slice SLast1',
               'sf': 'Slice SFull', 'un': 'Uncache', 'ed': 'EditLast', 'im': 'InMemory', 'gf': 'GetData Fill', 'gu': 'GetData Unchanged',
               'rh': 'ReadHdr', 'rs': 'ReadSpec', 'x8': 'FdataBroken Fill F8', 'x4': 'FdataBroken Fill F4',
-              'y8': 'FdataBroken Unchanged F8', 'y4': 'FdataBroken Unchanged F4', 'sb': 'Slice SFull'}
+              'y8': 'FdataBroken Unchanged F8', 'y4': 'FdataBroken Unchanged F4', 'sb': 'Slice SFull',
+              'f2': 'GetFdata Fill F2', 'fc': 'GetFdata Fill C8', 'u2': 'GetFdata Unchanged F2', 'uc': 'GetFdata Unchanged C8'}
     if k in simple:
         return simple[k]
     if k == 'r':
